@@ -433,6 +433,11 @@ pub fn sampler_for<'g>(g: &'g Grammar) -> Sampler<'g> {
 
 /// Common main for lab properties.
 pub fn main_lab(p: &dyn LabProp, ctx: &Ctx) -> i32 {
+    main_lab_with(p, ctx, &mut |_, _| {})
+}
+
+/// like `main_lab`, with an extra stage that adds to the same evidence and report
+pub fn main_lab_with(p: &dyn LabProp, ctx: &Ctx, extra: &mut dyn FnMut(&mut Evidence, &mut Report)) -> i32 {
     let mut rep = Report::new(p.id());
     if let Some(f) = &ctx.replay {
         let mut ev = Evidence::new(p.id(), ctx.tier, ctx.seed, p.rule());
@@ -447,6 +452,7 @@ pub fn main_lab(p: &dyn LabProp, ctx: &Ctx) -> i32 {
     let out = run_lab(p, ctx, &mut rep);
     let mut ev = out.ev;
     ev.merge(ev0);
+    extra(&mut ev, &mut rep);
     let code = rep.finish(&mut ev);
     ev.write();
     if code == 0 {
